@@ -48,6 +48,7 @@ SPEC_FUEL = 400
 
 # ---------------------------------------------------------------- templates
 # item: ("T", text) | ("B", name, required, body, endname|None) | ("S",) | ("E", template name)
+#       | ("I", template name) | ("N", template name)   include / render tag: harness and Python specification only
 
 
 def to_src(items: Iterable[tuple]) -> str:
@@ -59,6 +60,10 @@ def to_src(items: Iterable[tuple]) -> str:
             out.append("{{ block.super }}")
         elif it[0] == "E":
             out.append("{% extends '" + it[1] + "' %}")
+        elif it[0] == "I":
+            out.append("{% include '" + it[1] + "' %}")
+        elif it[0] == "N":
+            out.append("{% render '" + it[1] + "' %}")
         else:
             _, n, req, body, endn = it
             out.append("{% block " + n + (" required" if req else "") + " %}")
@@ -95,8 +100,30 @@ def c_items(items: Iterable[tuple]) -> str:
     return C.clist(out, "item")
 
 
-def c_loader(tpls: dict[str, list]) -> str:
-    return C.clist((C.cpair(c_name(k), c_items(v)) for k, v in tpls.items()), "(str * template)")
+class Interned:
+    """Templates that occur in many cases are defined once in the header of
+    the generated Coq files and referred to by name (parsing is what costs)."""
+
+    def __init__(self, cases: Iterable[tuple[dict, tuple, int]], at_least: int = 3) -> None:
+        count: dict[str, int] = {}
+        for tpls, _, _ in cases:
+            for v in tpls.values():
+                k = repr(v)
+                count[k] = count.get(k, 0) + 1
+        self.names: dict[str, str] = {}
+        self.defs: list[str] = []
+        for tpls, _, _ in cases:
+            for v in tpls.values():
+                k = repr(v)
+                if count[k] >= at_least and k not in self.names:
+                    self.names[k] = f"p{len(self.names)}"
+                    self.defs.append(f"Definition {self.names[k]} : template := {c_items(v)}.")
+
+    def template(self, v: list) -> str:
+        return self.names.get(repr(v)) or c_items(v)
+
+    def loader(self, tpls: dict[str, list]) -> str:
+        return C.clist((C.cpair(c_name(k), self.template(v)) for k, v in tpls.items()), "(str * template)")
 
 
 LCLASSES = {"TemplateInheritanceError", "RequiredBlockError", "TemplateNotFoundError",
@@ -116,7 +143,8 @@ def c_outcome(o: tuple) -> str:
 # ---------------------------------------------------------------- implementation
 
 
-RENDER_TIMEOUT_S = 6
+RENDER_TIMEOUT_S = 4.0
+WORKER_ADDRESS_SPACE = 3 << 30   # bytes; a render that allocates without end becomes MemoryError
 
 
 class RenderTimeout(BaseException):
@@ -155,7 +183,9 @@ class Runner:
         for loader_cls in (DictLoader, CachingDictLoader):
             for is_async in (False, True):
                 env = self.env_class(limit)(loader=loader_cls(dict(srcs)))
-                signal.alarm(self.timeout)  # a render that does not end is an outcome, not a hang
+                # a render that does not end is an outcome, not a hang; the timer repeats because an
+                # exception raised inside a GC/weakref callback is swallowed by the interpreter
+                signal.setitimer(signal.ITIMER_REAL, self.timeout, 0.05)
                 try:
                     if entry[0] == "direct":
                         if is_async:
@@ -169,14 +199,15 @@ class Runner:
                         outs.append(("ok", self.loop.run_until_complete(t.render_async())))
                     else:
                         outs.append(("ok", t.render()))
-                except RenderTimeout:
+                except (RenderTimeout, MemoryError):
+                    signal.setitimer(signal.ITIMER_REAL, 0)
                     outs.append(("err", "DidNotTerminate"))
                     self.loop = asyncio.new_event_loop()
-                    self.timeout = 1  # keep a broken tree from costing minutes
+                    self.timeout = 0.5  # keep a broken tree from costing minutes
                 except Exception as e:  # noqa: BLE001
                     outs.append(("err", type(e).__name__))
                 finally:
-                    signal.alarm(0)
+                    signal.setitimer(signal.ITIMER_REAL, 0)
         return outs
 
 
@@ -199,7 +230,7 @@ def _walk(items: Iterable[tuple]):
             yield from _walk(it[3])
 
 
-def pyspec(tpls: dict[str, list], name: str) -> tuple | None:
+def pyspec(tpls: dict[str, list], name: str, _depth: int = 0) -> tuple | None:
     """Root parent's text, every block replaced by the first definition found
     walking leaf -> root, super = next definition; None if the unfolding does
     not terminate.  Written without stacks, contexts or limits."""
@@ -241,7 +272,7 @@ def pyspec(tpls: dict[str, list], name: str) -> tuple | None:
             return out
 
         def render(items: list, sup: list, depth: int) -> str:
-            if depth > 150:
+            if depth + _depth > 150:
                 raise Diverges
             out = []
             for it in items:
@@ -252,6 +283,13 @@ def pyspec(tpls: dict[str, list], name: str) -> tuple | None:
                         out.append(render(sup[0][3], sup[1:], depth + 1))
                 elif it[0] == "E":
                     raise SpecErr("ContextDepthError")
+                elif it[0] in ("I", "N"):
+                    sub = pyspec(tpls, it[1], _depth + depth + 1)
+                    if sub is None:
+                        raise Diverges
+                    if sub[0] == "err":
+                        raise SpecErr(sub[1])
+                    out.append(sub[1])
                 else:
                     ds = defs(it[1])
                     if ds[0][2]:
@@ -368,6 +406,43 @@ def rand_case(r, thorough: bool) -> tuple[dict, tuple, int]:
     return tpls, entry, limit
 
 
+def nested_cases(r, n: int) -> list[tuple[dict, tuple, int]]:
+    """An inheriting leaf included / rendered from inside a block (or the top
+    level) of a member of another chain that uses the same block names."""
+    out = []
+    shapes = fam_shapes(2)
+    names = BNAMES[:2]
+    for _ in range(n):
+        d_out, d_in = r.randint(2, 3), r.randint(2, 3)
+        outer = {f"t{i}": fam_template(i, names, *r.choice(shapes)) for i in range(d_out)}
+        inner = {}
+        for i in range(d_in):
+            body = fam_template(i, names, *r.choice(shapes))
+            inner[f"s{i}"] = [("E", f"s{i - 1}") if it[0] == "E" else it for it in body]
+        tag = (r.choice("IN"), f"s{d_in - 1}")
+        host = outer[f"t{r.randrange(d_out)}"]
+        blocks = [it for it in _walk(host) if it[0] == "B"]
+        if blocks and r.random() < 0.85:
+            r.choice(blocks)[3].append(tag)
+        else:
+            host.insert(r.randint(1, len(host)), tag)
+        if r.random() < 0.3:   # a second one somewhere else
+            blocks = [it for t in outer.values() for it in _walk(t) if it[0] == "B"]
+            if blocks:
+                r.choice(blocks)[3].insert(0, (r.choice("IN"), f"s{d_in - 1}"))
+        out.append(({**outer, **inner}, ("direct", f"t{d_out - 1}"), 30))
+    return out
+
+
+# Witness of the fixed defect nested-chain-shares-block-stacks.
+WNEST = ({"t0": [("T", "["), ("B", "a", False, [("T", "ra")], None), ("T", "|"), ("B", "b", False, [("T", "rb")], None),
+                 ("T", "|"), ("B", "c", False, [("T", "rc")], None), ("T", "]")],
+          "t1": [("E", "t0"), ("B", "a", False, [("T", "la")], None), ("B", "b", False, [("T", "lb"), ("I", "s1")], None),
+                 ("B", "c", False, [("T", "lc")], None)],
+          "s0": [("T", "<"), ("B", "a", False, [("T", "r2a")], None), ("T", ">")],
+          "s1": [("E", "s0"), ("B", "a", False, [("T", "l2a")], None)]}, ("direct", "t1"), 30)
+
+
 def deep_cases() -> list[tuple[dict, tuple, int]]:
     """Boundaries of the two context limits at the default limit and at small ones."""
     out = []
@@ -459,10 +534,21 @@ def nontrivial(tpls: dict[str, list], entry: tuple) -> bool:
 # ---------------------------------------------------------------- main
 
 
+_in_worker = False
+
+
+def _mark_worker() -> None:
+    global _in_worker
+    _in_worker = True
+
+
 def _observe_chunk(chunk: list[tuple[dict, tuple, int]]) -> list[list[tuple]]:
     """Worker: render every case 4 times (and, when CPython's recursion limit
     is hit at a limit > 10, once more at context_depth_limit = 8)."""
     warnings.simplefilter("ignore")
+    if _in_worker:
+        import resource
+        resource.setrlimit(resource.RLIMIT_AS, (WORKER_ADDRESS_SPACE, WORKER_ADDRESS_SPACE))
     run = Runner()
     try:
         out = []
@@ -484,7 +570,8 @@ def observe_all(cases: list[tuple[dict, tuple, int]]) -> list[tuple]:
     n = 400
     chunks = [cases[i:i + n] for i in range(0, len(cases), n)]
     try:
-        with ProcessPoolExecutor(max_workers=min(8, C.JOBS), mp_context=mp.get_context("fork")) as ex:
+        with ProcessPoolExecutor(max_workers=min(8, C.JOBS), mp_context=mp.get_context("fork"),
+                                 initializer=_mark_worker) as ex:
             res = list(ex.map(_observe_chunk, chunks))
     except Exception:  # noqa: BLE001 - pool trouble: fall back to the plain loop
         res = [_observe_chunk(c) for c in chunks]
@@ -514,7 +601,7 @@ def main(chk: C.Check, build: C.Build) -> None:
     fam_counts: dict[str, Any] = {}
     #        names, depth, fraction in thorough, fraction in quick
     plan = [(1, 2, 1.0, 0.25), (1, 3, 1.0, 0.25), (1, 4, 1.0, 0.1), (2, 2, 1.0, 0.1),
-            (2, 3, 1.0, 0.02), (3, 2, 1.0, 0.02),
+            (2, 3, 1.0, 0.016), (3, 2, 1.0, 0.016),
             (2, 4, 0.006, 0.0003), (3, 3, 0.002, 0.00005), (3, 4, 0.00001, 0.00000025)]
     for k, d, f_th, f_q in plan:
         shapes = fam_shapes(k)
@@ -540,11 +627,12 @@ def main(chk: C.Check, build: C.Build) -> None:
         if r.random() < 0.03 and len(tpls) > 1:
             cases.append((tpls, ("wrap", [(r.random() < 0.5, entry[1])]), limit))
             fam_wrapped += 1
-    nrand = 800 if not thorough else 25000
+    nrand = 600 if not thorough else 25000
     for _ in range(nrand):
         cases.append(rand_case(r, thorough))
 
     observed = observe_all(cases)
+    interned = Interned(cases)
 
     items: list[dict[str, Any]] = []
     dist = {"ok": 0, "TemplateInheritanceError": 0, "RequiredBlockError": 0, "TemplateNotFoundError": 0,
@@ -610,7 +698,7 @@ def main(chk: C.Check, build: C.Build) -> None:
                 checks.append(f"outcome_eqb ({sterm}) e")
                 shown.append(sterm)
                 dist["spec_evaluated_in_coq"] += 1
-        head = f"let ld := {c_loader(tpls)} in let e := {c_outcome(o)} in "
+        head = f"let ld := {interned.loader(tpls)} in let e := {c_outcome(o)} in "
         items.append({"case": "(" + head + " && ".join(checks) + ")",
                       "model": head + "(" + ", ".join(shown) + ")", "replay": replay})
 
@@ -635,7 +723,24 @@ def main(chk: C.Check, build: C.Build) -> None:
         chk.finding("oracle:recursive-structure-not-rejected", f"recursive block structure gave {o}",
                     {"templates": {k: to_src(v) for k, v in WREC[0].items()}, "implementation": o})
 
-    C.correspond(chk, "c08", IMPORTS, DEFS, items, what="Inherit.render_name/run_wrapper and spec_inherit")
+    # chains nested through include / render inside another chain: Python specification only
+    nested = [WNEST] + nested_cases(r, 250 if not thorough else 4000)
+    n_nested_ok = 0
+    for (tpls, entry, limit), (outs, _) in zip(nested, observe_all(nested)):
+        o = agreed(outs, tpls, entry, limit)
+        if o is None or o in (("err", "ContextDepthError"), ("err", "RecursionError")):
+            continue
+        exp = pyspec(tpls, entry[1])
+        n_nested_ok += 1
+        if exp != o:
+            chk.finding("oracle:nested-chain-shares-block-stacks",
+                        f"a chain entered through include/render inside another chain: implementation gave {o}, "
+                        f"the specification gives {exp if exp else 'no finite page'}",
+                        {"templates": {k: to_src(v) for k, v in tpls.items()}, "entry": entry,
+                         "implementation": o, "specification": exp})
+
+    C.correspond(chk, "c08", IMPORTS, DEFS + "\n" + "\n".join(interned.defs), items,
+                 what="Inherit.render_name/run_wrapper and spec_inherit", shard=400)
     C.proofs_verdict(chk, proofs_ok)
 
     step = max(1, len(cases) // 5)
@@ -658,6 +763,7 @@ def main(chk: C.Check, build: C.Build) -> None:
         "families": fam_counts,
         "family_cases_also_entered_through_include_or_render": fam_wrapped,
         "random_cases": nrand,
+        "nested_chain_cases_checked_against_python_specification": n_nested_ok,
         "distribution": dist,
         "renders": 4 * len(items),
         "exhaustive": False,
